@@ -12,6 +12,11 @@ import vlib
 
 PROPERTIES = ["C06", "C07", "C16"]
 
+# every replayed behaviour is continued by this many epoch-closing blocks, so that whatever it registered
+# last (opt-out, replaced-key pruning, undelegation hold) matures inside the behaviour: the largest
+# EpochsUntilUnbonded the generation configs reach (NS = {1, 2}) + 1
+TAIL_EPOCHS = 3
+
 # deviations of spec/Staking.tla that describe the CURRENT tree (strict lane / generation)
 DEVS = ["ALWAYS", "L17"]
 
@@ -39,7 +44,7 @@ ASSUMPTIONS = [
     "blocks are app.EndBlocker + app.BeginBlocker on the deliver-state context with chosen block times (ctx-mode, no Commit)",
     "voting power input: one asset with price 1; the real operator epoch hook computes the USD values (C05 owns the formula)",
     "no slashing execution in this family (shares stay 1:1); jailing through dogfood's StakingKeeper interface",
-    "behaviours stay below height 11 so that no undelegation completes (release of matured records belongs to C03)",
+    "every behaviour is continued by %d epoch-closing blocks; delegation.EndBlock's release of matured, unheld records is modelled only as the disappearance of the record (its credit belongs to C03)" % TAIL_EPOCHS,
     "a behaviour ends when CometBFT refuses an update list (the chain would halt)",
 ]
 
@@ -119,6 +124,8 @@ def explain(tag, who, ctx, line):
             dev = "LEAK"
         elif tag == "C07_Slashable" and x in ctx["actdrop"]:
             dev = "ACT"
+        elif tag == "C07_Slashable" and line["st"]["rev"].get(x) and line["st"]["rev"][x] not in line["st"]["fwd1"] and not line["st"]["vbc"].get(x):
+            dev = "NOKEY"      # the reverse lookup is there, its operator has no current key any more
         res[x] = dev
     return res
 
@@ -225,6 +232,28 @@ def _leads(dm, cfg, timeout):
                   "lead_classes": [list(k) for k in sorted(by)]}
 
 
+def _with_tail(b):
+    h = json.loads(b)
+    return json.dumps(h + [{"ev": "Block", "a": {"adv": 1}} for _ in range(TAIL_EPOCHS)])
+
+
+def _cover(dm, cfg, timeout):
+    """class cover: breadth-first run with ACTION_CONSTRAINT CoverEdge prints one shortest behaviour per
+    transition class (MC_Staking!EdgeClass / BlockClass); one worker, the class register is per thread"""
+    out, rc = vlib.tlc(dm, "MC_Staking_q.tla", cfg, workers=1, timeout=timeout)
+    st = vlib.tlc_stats(out)
+    if st is None or "Error:" in out or st["queue"] != 0:
+        raise vlib.Infra(f"class cover run failed ({cfg}):\n" + out[-3000:])
+    behs = []
+    for line in out.split("\n"):
+        line = line.strip()
+        if line.startswith('"BEHAVIOUR '):
+            behs.append(json.loads(line)[len("BEHAVIOUR "):])
+    if not behs:
+        raise vlib.Infra(f"no behaviours printed by {cfg}")
+    return behs, {"cfg": cfg, "classes": len(behs), "states": st["distinct"], "transitions": st["generated"]}
+
+
 def _run(tier, seed, harness, d):
     res = {"family": "staking", "mc": [], "tags": [], "samples": [], "tag_universe": TAG_UNIVERSE, "assumptions": ASSUMPTIONS}
     # 1. exhaustive check of the properties on the model of the CURRENT (repaired) tree, pure TLA+ numbers
@@ -247,7 +276,7 @@ def _run(tier, seed, harness, d):
         if not m["violated"]:
             raise vlib.Infra("MC_Staking_dev.cfg: the model of the pre-fix tree satisfies every property (the invariants no longer see the repaired defects)")
     # 2..4 per world: generate from the model of the current tree, replay on the real code, validate
-    nbeh = 120 if tier == "quick" else 800
+    nbeh = 90 if tier == "quick" else 800
     counts = collections.Counter()
     notes = collections.Counter()
     distinct = set()
@@ -257,6 +286,7 @@ def _run(tier, seed, harness, d):
         os.makedirs(dg)
         vlib.stage_specs(dg, with_override=False)
         behs = vlib.tlc_simulate(dg, w["module"], w["gencfg"], num=max(10, int(nbeh * w["share"])), depth=45, seed=seed + 2000)
+        nsim = len(behs)
         res.setdefault("generated", {})[wname] = {"simulated": len(behs)}
         # model counterexamples (leads) found earlier by the lead lane and kept as a corpus; the thorough
         # tier recomputes them
@@ -272,12 +302,32 @@ def _run(tier, seed, harness, d):
             lb = [x.strip() for x in open(sp) if x.strip()]
             behs = lb + behs
             res["generated"][wname]["seeded_leads"] = len(lb)
-        chunk = 120
-        for ci in range(0, len(behs), chunk):
+        # class cover of the model of the current tree (one shortest behaviour per transition class):
+        # corpus in the quick tier, recomputed in the thorough tier
+        cp = os.path.join(vlib.VERIF, "seeded", "staking_cover.ndjson")
+        if wname != "w3":
+            pass
+        elif tier != "quick" and os.path.exists(os.path.join(dm, "MC_Staking_cov.cfg")):
+            cb, info = _cover(dm, "MC_Staking_cov.cfg", 3000)
+            res["cover"] = info
+            behs = cb + behs
+            res["generated"][wname]["cover"] = len(cb)
+        elif os.path.exists(cp):
+            cb = [x.strip() for x in open(cp) if x.strip()]
+            behs = cb + behs
+            res["generated"][wname]["seeded_cover"] = len(cb)
+        behs = [_with_tail(b) for b in behs]
+        # lead / class-cover behaviours are replayed at the model's own amounts (their class is defined
+        # there: a scaled amount can turn the covered transition into a different one); the simulated
+        # behaviours get a seed-chosen amount scale
+        ncorpus = len(behs) - nsim
+        groups = [(behs[:ncorpus], dict(w["hcfg"], scales=["1"])), (behs[ncorpus:], w["hcfg"])]
+        chunk = 150
+        parts = [(g[ci:ci + chunk], hc) for g, hc in groups for ci in range(0, len(g), chunk)]
+        for ci, (part, hc) in enumerate(parts):
             dt = os.path.join(d, f"trace-{wname}-{ci}")
             os.makedirs(dt)
-            part = behs[ci:ci + chunk]
-            lines, tags = _validate(dt, harness, part, w["hcfg"], seed)
+            lines, tags = _validate(dt, harness, part, hc, seed)
             total_beh += _attach(lines, tags, part, wname, res, counts, distinct, notes)
             total_ev += len(lines)
             if not res["samples"]:
